@@ -282,3 +282,17 @@ pub fn item_names(file: &syn::File) -> Value {
         .collect();
     Value::Array(names)
 }
+
+/// (module, kind, name-or-trait, self type) -> token hash of every item; used to compare snapshots of one type space.
+pub fn item_keys(file: &syn::File) -> Value {
+    let mut all = Vec::new();
+    walk(&file.items, "", &mut all);
+    let keys: Vec<Value> = all
+        .iter()
+        .filter(|i| i["kind"] == "struct" || i["kind"] == "enum" || i["kind"] == "impl" || i["kind"] == "fn")
+        .map(|i| json!([i["mod"], i["kind"], i.get("name").cloned().unwrap_or(Value::Null),
+                        i.get("trait").cloned().unwrap_or(Value::Null),
+                        i.get("self_ty").cloned().unwrap_or(Value::Null), i.get("h").cloned().unwrap_or(Value::Null)]))
+        .collect();
+    Value::Array(keys)
+}
